@@ -39,7 +39,7 @@ struct Ws {
 }
 
 const CRATE_NAMES: [&str; 5] = ["alpha", "beta-util", "gamma_core", "delta", "eps-x-y"];
-const FORMS: [&str; 7] = ["use-single", "use-grouped", "use-nested", "use-glob", "qualified", "qualified-deep", "use-renamed-target"];
+const FORMS: [&str; 9] = ["use-single", "use-grouped", "use-nested", "use-glob", "qualified", "qualified-deep", "use-grouped-fn-after", "use-grouped-self-after", "use-renamed-target"];
 
 fn crate_ident(n: &str) -> String {
     n.replace('-', "_")
@@ -100,7 +100,7 @@ fn gen_ws(rng: &mut Rng) -> Ws {
                     *rng.pick(&["crate-path", "super-path", "self-use", "self-path", "use-crate"])
                 }
             } else {
-                *rng.pick(&FORMS[..6])
+                *rng.pick(&FORMS[..8])
             };
             types[i].refs.push((t, form));
             // a generic target takes a type argument: often another (earlier, non-generic) type, written in a form of its own
@@ -115,7 +115,7 @@ fn gen_ws(rng: &mut Rng) -> Ws {
                             *rng.pick(&["crate-path", "super-path", "self-use", "self-path", "use-crate"])
                         }
                     } else {
-                        *rng.pick(&FORMS[..6])
+                        *rng.pick(&FORMS[..8])
                     };
                     let outer = types[i].refs.len() - 1;
                     types[i].refs.push((j, jform));
@@ -127,7 +127,7 @@ fn gen_ws(rng: &mut Rng) -> Ws {
     // same-named type in another crate: only the import clause is concerned by it
     let mut same_named = false;
     if k >= 2 && rng.coin() {
-        let local_targets: Vec<usize> = types.iter().flat_map(|t| t.refs.iter().filter(|(ti, _)| types[*ti].krate == t.krate && types[*ti].renamed.is_none()).map(|(ti, _)| *ti)).collect();
+        let local_targets: Vec<usize> = types.iter().flat_map(|t| t.refs.iter().filter(|(ti, _)| types[*ti].krate == t.krate).map(|(ti, _)| *ti)).collect();
         if !local_targets.is_empty() {
             let ti = *rng.pick(&local_targets);
             let other_crate = (types[ti].krate + 1 + rng.below(k - 1)) % k;
@@ -138,6 +138,10 @@ fn gen_ws(rng: &mut Rng) -> Ws {
                 d.krate = other_crate;
                 d.file = fi;
                 d.refs.clear();
+                // when the original carries a serde name, the other crate's type of that Rust identifier carries another one
+                if d.renamed.is_some() {
+                    d.renamed = Some(format!("{}RnOther", cap(&d.stem)));
+                }
                 d.dup = true;
                 types[ti].dup = true;
                 types.push(d);
@@ -182,6 +186,15 @@ fn render_ws(ws: &Ws) -> Vec<SrcFile> {
                     }
                     "use-grouped" => {
                         uses.insert(format!("use {tc}::{{{}, Unrelated{k}}};", target.name));
+                        target.name.clone()
+                    }
+                    // a group that lists the type before leaves that are not types (a function, a module, `self`)
+                    "use-grouped-fn-after" => {
+                        uses.insert(format!("use {tc}::{{{}, helper_fn{k}, CONSTANT_{k}}};", target.name));
+                        target.name.clone()
+                    }
+                    "use-grouped-self-after" => {
+                        uses.insert(format!("use {tc}::{{{}, util{k}::{{self}}, self}};", target.name));
                         target.name.clone()
                     }
                     "use-nested" => {
@@ -428,6 +441,34 @@ pub fn run(ctx: &Ctx) -> (Spec, Report) {
                 }
                 if union != single {
                     rep.violate(format!("C14|{lname}|definitions-differ-from-single-file"), format!("multi-file defines {:?}, single-file defines {:?}", union.difference(&single).collect::<Vec<_>>(), single.difference(&union).collect::<Vec<_>>()), detail(json!({"single_file_output": r.single})));
+                }
+            }
+        }
+        // every reference is spelled with the name its target is defined under in the crate it resolves to (its serde
+        // name and the prefix) - also when another crate has a type of the same Rust identifier
+        for (c, cname) in r.ws.crates.iter().enumerate() {
+            let fname = expected_file_name(r.lang, cname);
+            let Some(ParseStatus::Parsed(file)) = multi_facts.get(fname.as_str()).map(|f| &f.status) else { continue };
+            for t in r.ws.types.iter().filter(|t| t.krate == c) {
+                let own = format!("{}{}", r.cfg.prefix, t.renamed.clone().unwrap_or(t.name.clone()));
+                let Some(def) = file.defs.iter().find(|d| d.name == own) else { continue };
+                let mut mentioned: Vec<&str> = vec![];
+                for f in &def.fields {
+                    f.ty.names(&mut mentioned);
+                }
+                for (ti, form) in &t.refs {
+                    let target = &r.ws.types[*ti];
+                    let want = format!("{}{}", r.cfg.prefix, target.renamed.clone().unwrap_or(target.name.clone()));
+                    rep.count("reference_spellings_checked", 1);
+                    if !mentioned.iter().any(|n| *n == want) {
+                        let unrenamed = format!("{}{}", r.cfg.prefix, target.name);
+                        let how = if mentioned.iter().any(|n| *n == unrenamed) { "rust-identifier" } else { "other-name" };
+                        rep.violate(
+                            format!("C14|{lname}|reference-spelled-as-{how}|renamed={}|same-identifier-elsewhere={}", target.renamed.is_some(), target.dup),
+                            format!("{fname}: {own} refers to {} (defined as {want}) via `{form}` but its fields mention {:?}", target.name, mentioned),
+                            detail(json!({"user": own, "target": target.name, "defined_as": want, "form": form})),
+                        );
+                    }
                 }
             }
         }
